@@ -1,6 +1,7 @@
 import OrsoVerif.Model.PyVal
 import OrsoVerif.Model.Iso
 import OrsoVerif.Model.IsoCast
+import OrsoVerif.Generated.IsoDispatch
 /-! Driver glue for C08: decode an input, run `parseIso` / the casts / the renderers, encode. -/
 namespace Drv.C08
 open Iso
@@ -25,6 +26,7 @@ def decodeInput : PyVal → Option Input
   | .list [.str "datetime", .list fs] => do pure (.datetime (← decodeDt fs))
   | .list [.str "time", H, M, S, us] => do pure (.time (← nat? H) (← nat? M) (← nat? S) (← nat? us))
   | .list [.str "other"] => some .other
+  | .list [.str "num", .str ty, .int n] => some (.num ty n)
   | .list [.str "strsub", .str s] => some (.strSub s.toList)
   | _ => none
 
@@ -35,6 +37,13 @@ def encodeOutcome : Outcome → PyVal
   | .value dt => .list [.str "value", encodeDt dt]
   | .none => .list [.str "none"]
   | .raises e => .list [.str "raises", .str e.name]
+
+/-- `parse_iso` through the dispatch program generated from the source on this run. -/
+def parseGen (i : Input) : Outcome :=
+  match Gen.IsoDispatch.dispatch (.inp i) with
+  | .ok (some dt) => .value dt
+  | .ok none => .none
+  | .error e => if caughtBy Gen.Iso.caught e then .none else .raises e
 
 def encodeCast : CastOut → PyVal
   | .date y m d => .list [.str "date", .int y, .int m, .int d]
@@ -70,7 +79,8 @@ def handle (op : String) (args : List PyVal) : Option (List PyVal) :=
   match op, args with
   | "parse", [i] => do
     let i ← decodeInput i
-    pure [encodeOutcome (parseIso i)]
+    -- the specification form the theorems are about, and the dispatch program translated from the source on this run
+    pure [encodeOutcome (parseIso i), encodeOutcome (parseGen i)]
   | "parseskel", [.str t] => pure [encodeOutcome (parseTextSkel t.toList)]
   | "tailread", [.str t] => pure [.bool (tailRead t.toList), .str (String.ofList (cutTail t.toList))]
   | "cast", [.str k, i] => do
